@@ -715,17 +715,23 @@ func ruleVersionLiteral(c *chk.Ctx) {
 		c.Undecided("TABLE.version", nil, "version literals", 0, "found %d version literals (want ≥ 2: the encoder and the bridge's error object)", n)
 	}
 	// the parser's validity predicate compares with Version
-	f := c.M.Pkg.Func("isValidVersion")
-	if f != nil {
-		okCmp := false
+	// (by role: a comparison with the version literal somewhere in the core package's decoding code)
+	var where *ssa.Function
+	for _, f := range pkgFuncs(c, c.M.Pkg) {
 		ir.Instrs(f, func(ins ssa.Instruction) {
-			if bo, ok := ins.(*ssa.BinOp); ok && bo.Op == token.EQL {
-				if s, isS := constString(bo.Y); isS && s == ver {
-					okCmp = true
+			if bo, ok := ins.(*ssa.BinOp); ok && (bo.Op == token.EQL || bo.Op == token.NEQ) {
+				for _, side := range []ssa.Value{bo.X, bo.Y} {
+					if s, isS := constString(side); isS && s == ver && where == nil {
+						where = ins.Parent()
+					}
 				}
 			}
 		})
-		c.Check(okCmp, "TABLE.version", f, "version check", f.Pos(), "the parser accepts exactly Version", "the parser's version predicate does not compare with Version")
+	}
+	if where == nil {
+		c.Fail("TABLE.version", nil, "version check", 0, "the parser's version predicate does not compare with Version: no comparison with the version literal in the core package")
+	} else {
+		c.Pass("TABLE.version", where, "version check", where.Pos(), "the parser accepts exactly Version")
 	}
 }
 
